@@ -154,12 +154,34 @@ theorem gc_decision (running : List Wid) (xrs : List XR) (w : Wid) :
   simp only [Collectable, mem_refsOf, not_exists, not_and]
 
 /-- The decision depends on the XRs' references only: two lists of XRs that differ in any of
-the state fields (deleting, paused, composition reference, ready, synced) but carry the same
-references lead to the same decision (both code variants). -/
+the other fields (deleting, paused, composition reference, composition REVISION reference, ready,
+synced) but carry the same references lead to the same decision (both code variants). In
+particular the collector may not take one XR as representative of the others on its revision. -/
 theorem gc_decision_ignores_xr_state (cfg : Cfg) (running : List Wid) (xrs xrs' : List XR)
     (h : xrs.map (·.refs) = xrs'.map (·.refs)) :
     gcStop cfg running (refsOf xrs) = gcStop cfg running (refsOf xrs') := by
   simp only [refsOf, h]
+
+/-- XRs that share a composition revision are each inspected: a kind that ANY listed XR references is
+kept, wherever in the list that XR stands and whatever an earlier XR on the same revision references
+(nothing yet, other kinds). Monitors `C13:gc-stopped-referenced-watch`, `C13:gc-wrong-set`. -/
+theorem gc_inspects_every_xr_of_a_revision (running : List Wid) (pre mid post : List XR) (x y : XR) (w : Wid)
+    (_hrev : x.rev = y.rev) (href : some w.gvk ∈ y.refs) :
+    w ∉ gcStop Cfg.fixed running (refsOf (pre ++ x :: mid ++ y :: post)) ∧
+    w ∉ gcStop Cfg.fixed running (refsOf (pre ++ y :: mid ++ x :: post)) := by
+  constructor
+  · intro hw
+    exact ((gc_decision running _ w).1 hw).2.2 y (by simp) href
+  · intro hw
+    exact ((gc_decision running _ w).1 hw).2.2 y (by simp) href
+
+/-- a new XR without references listed before an XR on the same revision that composes kind 1: the
+watch on kind 1 is kept, only the unreferenced kind 2 is stopped -/
+example : gcStop Cfg.fixed [⟨.composed, 1⟩, ⟨.composed, 2⟩, ⟨.xr, 9⟩]
+    (refsOf [{ deleting := false, paused := false, hasCompositionRef := true, ready := false, synced := true, refs := [], rev := some 1 },
+             { deleting := false, paused := false, hasCompositionRef := true, ready := true, synced := true, refs := [some 1], rev := some 1 },
+             { deleting := false, paused := false, hasCompositionRef := false, ready := true, synced := true, refs := [none], rev := none }]) =
+    [⟨.composed, 2⟩] := by decide
 
 /-- the case the property names: a watch whose kind only a deleting XR references is kept -/
 theorem gc_keeps_watch_referenced_by_deleting_xr (running : List Wid) (xrs : List XR) (x : XR) (w : Wid)
@@ -267,7 +289,7 @@ theorem restart_after_informer_loss {ops : List Op} {s : Sys} (h : Reachable Cfg
 
 def cW (g : Nat) : Wid := ⟨.composed, g⟩
 /-- a live, ready XR referencing the given kinds -/
-def xrLive (gs : List Nat) : XR := ⟨false, false, true, true, true, gs.map some⟩
+def xrLive (gs : List Nat) : XR := ⟨false, false, true, true, true, gs.map some, none⟩
 def rep (i k : Nat) : List (Nat × Choice) := List.replicate k (i, {})
 
 /-- D2, concurrent form: two StartWatches calls for the same watch; the second takes its
@@ -417,7 +439,7 @@ referencing version 2 of kind 1 (kind number 1001) and a malformed reference: th
 0 is kept, the watch on (version 1 of) kind 1 is stopped, the XR watch is kept -/
 example : (runSched Cfg.fixed
       (init [.start 0, .startWatches 0 [⟨.xr, 7⟩, cW 0, cW 1],
-             .gc 0 [⟨true, true, false, false, false, [some 0, some 0]⟩, ⟨false, false, true, true, true, [some 1001, none]⟩]])
+             .gc 0 [⟨true, true, false, false, false, [some 0, some 0], some 1⟩, ⟨false, false, true, true, true, [some 1001, none], some 1⟩]])
       (rep 0 3 ++ rep 1 14 ++ rep 2 4 ++ [(2, { perm := [cW 1] })] ++ rep 2 8)).map
     (fun s => ((srcsOf s 0).map (·.1), s.threads.map (·.pc))) =
     some ([cW 0, ⟨.xr, 7⟩], [.done .ok, .done .ok, .done (.count 1 true)]) := by decide
